@@ -176,3 +176,25 @@ func PickAccum(g *gen, probs []float64) int {
 	}
 	return len(probs) - 1
 }
+
+type marcher struct{ eps float64 }
+
+func (m *marcher) RayCollisions(r *model3d.Ray, f func(model3d.RayCollision)) int {
+	n := 0
+	for t := 0.0; t <= 1+m.eps; t += m.eps {
+		if t > 0.5 {
+			n++
+		}
+	}
+	return n
+}
+
+// want:SIBLOOP stops one step earlier than RayCollisions.
+func (m *marcher) FirstRayCollision(r *model3d.Ray) (model3d.RayCollision, bool) {
+	for t := 0.0; t <= 1; t += m.eps {
+		if t > 0.5 {
+			return model3d.RayCollision{Scale: t}, true
+		}
+	}
+	return model3d.RayCollision{}, false
+}
